@@ -20,6 +20,22 @@ theorem walkParents_sub (E : TopoEnv) {c p : Nat} (h : p ∈ walkParents E c) : 
 theorem walkParents_eq_edges (E : TopoEnv) (c : Nat) :
     walkParents E c = edges E.g E.cfg.firstParent c := rfl
 
+/-- reachable from a tip or an end over the walked links -/
+def Rch (E : TopoEnv) (tips ends : List Nat) (x : Nat) : Prop :=
+  ∃ s, s ∈ tips ++ ends ∧ Reach E.eg s x
+
+/-- reachable from an end (over all parent links): what `git rev-list ^end` hides -/
+def Hid (E : TopoEnv) (ends : List Nat) (x : Nat) : Prop := ∃ e, e ∈ ends ∧ Reach E.g e x
+
+/-- What a walk with ends needs of the walked links: a hidden reachable commit that is not an end
+has a hidden reachable child over the links the walk follows. It always holds when all parents are
+walked and when there are no ends (`hidWalk_of_fp_ends`). For a `Parents::First` walk with ends it
+is exactly the condition under which the walk hides what git hides; where it fails the walk
+returns commits `git rev-list --first-parent tips ^ends` does not print (the known finding). -/
+def HidWalk (E : TopoEnv) (tips ends : List Nat) : Prop :=
+  ∀ x, Hid E ends x → Rch E tips ends x → x ∉ ends →
+    ∃ c, Hid E ends c ∧ Rch E tips ends c ∧ x ∈ walkParents E c
+
 /-- everything the theorems assume about the repository, the queues and the request -/
 structure TCtx (E : TopoEnv) (nodes tips ends : List Nat) : Prop where
   acyclic : Acyclic E.g
@@ -33,18 +49,11 @@ structure TCtx (E : TopoEnv) (nodes tips ends : List Nat) : Prop where
   /-- the generation queue hands out an entry of maximal generation -/
   qg_max : ∀ s e s', E.qg.pop s = some (e, s') → ∀ x, x ∈ E.qg.items s → x.1.1 ≤ e.1.1
   qd_lawful : E.qd.Lawful
-  /-- first-parent walks with hidden tips are outside the theorems (known finding) -/
-  fp_ends : E.cfg.firstParent = true → ends = []
+  /-- see `HidWalk`: automatic unless this is a first-parent walk with ends -/
+  hid_walk : HidWalk E tips ends
 
 section ctx
 variable {E : TopoEnv} {nodes tips ends : List Nat}
-
-/-- reachable from a tip or an end over the walked links -/
-def Rch (E : TopoEnv) (tips ends : List Nat) (x : Nat) : Prop :=
-  ∃ s, s ∈ tips ++ ends ∧ Reach E.eg s x
-
-/-- reachable from an end (over all parent links): what `git rev-list ^end` hides -/
-def Hid (E : TopoEnv) (ends : List Nat) (x : Nat) : Prop := ∃ e, e ∈ ends ∧ Reach E.g e x
 
 theorem TCtx.walk_nodup (ctx : TCtx E nodes tips ends) (c : Nat) : (walkParents E c).Nodup := by
   unfold walkParents
@@ -52,11 +61,11 @@ theorem TCtx.walk_nodup (ctx : TCtx E nodes tips ends) (c : Nat) : (walkParents 
   · exact (ctx.parents_nodup c).sublist (List.take_sublist _ _)
   · exact ctx.parents_nodup c
 
-theorem TCtx.walk_all (ctx : TCtx E nodes tips ends) (hne : ends ≠ []) (c : Nat) :
+theorem walk_all_of_fp_ends (hfe : E.cfg.firstParent = true → ends = []) (hne : ends ≠ []) (c : Nat) :
     walkParents E c = E.g.parents c := by
   unfold walkParents
   cases hf : E.cfg.firstParent with
-  | true => exact absurd (ctx.fp_ends hf) hne
+  | true => exact absurd (hfe hf) hne
   | false => simp
 
 theorem eg_reach_g (E : TopoEnv) {x y : Nat} (h : Reach E.eg x y) : Reach E.g x y := by
@@ -64,14 +73,14 @@ theorem eg_reach_g (E : TopoEnv) {x y : Nat} (h : Reach E.eg x y) : Reach E.g x 
   | refl => exact Reach.refl _
   | head hp _ ih => exact Reach.head (walkParents_sub E hp) ih
 
-theorem TCtx.g_reach_eg (ctx : TCtx E nodes tips ends) (hne : ends ≠ []) {x y : Nat} (h : Reach E.g x y) :
-    Reach E.eg x y := by
+theorem g_reach_eg_of_fp_ends (hfe : E.cfg.firstParent = true → ends = []) (hne : ends ≠ []) {x y : Nat}
+    (h : Reach E.g x y) : Reach E.eg x y := by
   induction h with
   | refl => exact Reach.refl _
   | head hp _ ih =>
     refine Reach.head ?_ ih
     show _ ∈ walkParents E _
-    rw [ctx.walk_all hne]; exact hp
+    rw [walk_all_of_fp_ends hfe hne]; exact hp
 
 theorem TCtx.eg_acyclic (ctx : TCtx E nodes tips ends) : Acyclic E.eg := by
   obtain ⟨rank, hr⟩ := ctx.acyclic
@@ -113,17 +122,18 @@ theorem reach_tail_cases {g : Dag} {a b : Nat} (h : Reach g a b) :
       obtain ⟨c, hc1, hc2⟩ := h'
       exact ⟨c, Reach.head hp hc1, hc2⟩
 
-/-- a hidden commit that is not an end itself has a hidden, reachable child -/
-theorem TCtx.hidden_child (ctx : TCtx E nodes tips ends) {x : Nat} (h : Hid E ends x) (hx : x ∉ ends) :
-    ∃ c, Hid E ends c ∧ Rch E tips ends c ∧ x ∈ walkParents E c := by
+/-- all parents walked, or no ends: a hidden commit that is not an end has a hidden, reachable
+child over the walked links -/
+theorem hidWalk_of_fp_ends (hfe : E.cfg.firstParent = true → ends = []) : HidWalk E tips ends := by
+  intro x h _ hx
   obtain ⟨e, he, hr⟩ := h
   have hne : ends ≠ [] := by intro h'; rw [h'] at he; simp at he
   cases reach_tail_cases hr with
   | inl h' => subst h'; exact absurd he hx
   | inr h' =>
     obtain ⟨c, hc1, hc2⟩ := h'
-    refine ⟨c, ⟨e, he, hc1⟩, ⟨e, List.mem_append_right _ he, ctx.g_reach_eg hne hc1⟩, ?_⟩
-    rw [ctx.walk_all hne]; exact hc2
+    refine ⟨c, ⟨e, he, hc1⟩, ⟨e, List.mem_append_right _ he, g_reach_eg_of_fp_ends hfe hne hc1⟩, ?_⟩
+    rw [walk_all_of_fp_ends hfe hne]; exact hc2
 
 end ctx
 
